@@ -12,10 +12,11 @@ variable splitting and typing, loop/if/switch structuring, the statement writer.
 differential execution (harness/props/c21.py).  `C21_full` below is the statement that is not proved.
 -/
 import AgVerif.Proof.Translate
+import AgVerif.Model.LitCtx
 
 namespace AgVerif.C21
 open AgVerif.Translate AgVerif.JavaSem
-open AgVerif.Gen.Translate (rows Row)
+open AgVerif.Gen.Translate (rows Row ctxRows)
 open AgVerif.DalvikSem (Form step litOk)
 
 /-- the whole property, for the record: for every method of the subset the emitted Java source compiles and
@@ -32,6 +33,24 @@ theorem rows_checked : rows.all (fun r => rowOk r && decide (r.opcode < 256)) = 
 /-- every opcode of the subset is translated for all its literals -/
 theorem table_complete : ∀ op : Fin 256, opcodeCovered rows op.val = true := by
   decide +kernel
+
+/-- **literal_contexts_checked**: in every expression context the Writer can distinguish (11 binary operators with the
+    constant right or left, long operators and shifts, the six comparisons with an int / char / byte / short typed or
+    cast operand and with the constant on the left, bare constants, unary operators, the five casts) a Constant operand
+    is printed, for EVERY value of −128 … 255 and the int / long boundaries, with exactly the lexemes of the model's
+    expression `ctxExpr`, as one `int` (resp. `L`-suffixed) decimal literal, and that literal denotes the constant. -/
+theorem literal_contexts_checked : ctxRows.all ctxRowOk = true := by
+  decide +kernel
+
+/-- every context has exactly one way of being printed (no value-dependent special case) -/
+theorem literal_contexts_complete : ctxComplete ctxRows = true := by
+  decide +kernel
+
+/-- what such a literal denotes under the JLS semantics: the constant itself, as an int (resp. long) -/
+theorem literal_denotes (ρ : JavaSem.Env) (v : Int) :
+    (-(2 : Int) ^ 31 ≤ v → v < (2 : Int) ^ 31 → eval ρ (.lit v false) = .ok (.int (BitVec.ofInt 32 v))) ∧
+    (-(2 : Int) ^ 63 ≤ v → v < (2 : Int) ^ 63 → eval ρ (.lit v true) = .ok (.long (BitVec.ofInt 64 v))) :=
+  ⟨eval_lit_int ρ v, eval_lit_long ρ v⟩
 
 /-- **translate_sound** (partial C21): for every row of the real translation table, for all register contents and
     every literal the encoding can deliver, the Java expression printed for the instruction has, under the JLS
